@@ -49,7 +49,7 @@ CHECKS = {
             "chitchat is a stub in the single-node cases (harness-supplied snapshots through the same watch-channel type); in the real-cluster arm it is the vendored fork with replay patches only.",
             "DESIGN.md section 10 C16"),
     "C17": ("E1", "exploration",
-            "Real SqliteStorage (file), LmdbStorage (directory) and MemStore driven call by call next to a map reference model, with clean close+reopen, kill -9 file images between calls, LMDB map-full, confusable keyspace names, duplicate ids in one bulk call, oversized batches and a poisoned SQLite row that fails one statement of a batch; full audit (iter_metadata, get, multi_get, keyspace-list envelope) after every mutating call.",
+            "Real SqliteStorage (file), LmdbStorage (directory) and MemStore driven call by call next to a map reference model, with clean close+reopen, kill -9 file images between calls, LMDB map-full, confusable keyspace names, duplicate ids in one bulk call, oversized batches, keyspace names around LMDB's 511-byte database-name limit (a refused keyspace must not be listed unless it can be read) and a poisoned SQLite row that fails one statement of a batch; full audit (iter_metadata, get, multi_get, keyspace-list envelope) after every mutating call.",
             "Contract-conforming call sequences only. SQLite/LMDB internals trusted (no seam below the C libraries); real worker threads, calls awaited one at a time.",
             "DESIGN.md section 10 C17"),
     "C18": ("E1", "exploration",
@@ -69,8 +69,8 @@ CHECKS = {
             "Frames > 1 KiB: 4096 seeded flips / 1024 truncations instead of all. Corruption at the frame layer, not TCP.",
             "DESIGN.md section 10 C12"),
     "C13": ("E2", "fault_enumeration",
-            "Every add/remove history over {A,B,C} up to length 4 (quick) / 5 (thorough) enumerated completely on a running server, all four (service,message) pairs probed after every step through the real client over simulated TCP; plus seeded longer histories with concurrent probes; one service uses a custom path() and send_owned.",
-            "Probes are sequenced after each registry change.",
+            "Every add/remove history over {A,B,C} up to length 4 (quick) / 5 (thorough) enumerated completely on a running server, all four (service,message) pairs probed after every step through the real client over simulated TCP; plus seeded longer histories with concurrent probes; one service uses a custom path() and send_owned; one seeded history in four removes a service instance whose drop has a second OS thread re-register the service while the removal is still running.",
+            "Probes are sequenced after each registry change. The re-registration arm uses one real second thread whose start is forced by a handshake plus 25 ms of real time; the unchanged registry ends in the same state whichever call finishes last.",
             "DESIGN.md section 10 C13"),
     "C14": ("E2", "exploration",
             "Waves of concurrent requests with unique ids, payload sizes, handler delays and client timeouts over simulated TCP with timed hold/release, partition/repair (mid-stream) and server kill+restart; results checked against the handler's execution log: right reply or Connection/Timeout error, at most one execution, no swapped replies, timeouts honoured.",
